@@ -11,7 +11,10 @@
 (***************************************************************************)
 EXTENDS GcHeap, Json
 
-CONSTANTS MaxOps, Emit
+CONSTANTS MaxOps, Emit,
+  Menu    \* "base": the reduced mutator / collector menu, free interleaving
+          \* "dyn" : dynamic root sets and handles; arena 1 starts only after arena 0 was dropped (its handles
+          \*         survive it), which is the order in which an allocator hands arena 1 the addresses of arena 0
 
 VARIABLES ha, hb, hist
 vars == <<ha, hb, hist>>
@@ -20,8 +23,26 @@ vw == <<[ha EXCEPT !.mt = 0, !.pc = 0], [hb EXCEPT !.mt = 0, !.pc = 0]>>
 Init == ha = EmptyHeap /\ hb = EmptyHeap /\ hist = <<>>
 
 \* the enabled operations of one arena: a set of <<operation record, successor heap>>
+FreeH(h) == {i \in 1..MaxHandles : h.handles[i] = NoHandle}
+UsedH(h) == {i \in 1..MaxHandles : h.handles[i] # NoHandle}
+DynOps(h) ==
+  \* handles live outside the arena: they can be dropped after it is gone
+  {<<[op |-> "drop_handle", hid |-> i], DropHandle(h, i)>> : i \in UsedH(h)}
+  \cup (IF h.phase = "Dropped" THEN {}
+        ELSE LET acc == Acc(h) IN
+          {<<[op |-> "new_set", o |-> o], NewSet(h, o)>> : o \in {x \in FreeIds(h) : Len(h.rootD) < 1}}
+          \cup {<<[op |-> "alloc_root", o |-> o, k |-> "N", via |-> "mutate_root"], AllocRoot(h, o, "N")>> :
+                  o \in {x \in FreeIds(h) : Len(h.rootS) < MaxKids}}
+          \cup {<<[op |-> "stash", d |-> dc[1], c |-> dc[2], hid |-> CHOOSE x \in FreeH(h) : \A y \in FreeH(h) : x <= y],
+                   Stash(h, dc[1], dc[2], CHOOSE x \in FreeH(h) : \A y \in FreeH(h) : x <= y)>> :
+                  dc \in {x \in Range(h.rootD) \X acc : h.kind[x[2]] = "N" /\ FreeH(h) # {}}}
+          \cup {<<[op |-> "root_remove", c |-> c, via |-> "mutate_root"], RootRemove(h, c)>> : c \in Range(h.rootS)}
+          \cup {<<[op |-> "call", kind |-> "finish_cycle", b |-> 0, g |-> "P1", cont |-> FALSE], Call(h, "finish_cycle", 0, "P1", FALSE)>>}
+          \cup {<<[op |-> "drop_arena"], DropAll(h)>>})
+
 Ops(h) ==
-  IF h.phase = "Dropped" THEN {}
+  IF Menu = "dyn" THEN DynOps(h)
+  ELSE IF h.phase = "Dropped" THEN {}
   ELSE LET acc == Acc(h) IN
     {<<[op |-> "alloc_root", o |-> o, k |-> "N", via |-> "mutate_root"], AllocRoot(h, o, "N")>> :
         o \in {x \in FreeIds(h) : Len(h.rootS) < MaxKids}}
@@ -37,9 +58,12 @@ Ops(h) ==
           THEN {<<[op |-> "start_sweeping"], Call(FinishMarking(h), "start_sweeping", 0, "P1", FALSE)>>} ELSE {})
     \cup {<<[op |-> "drop_arena"], DropAll(h)>>}
 
+\* handle numbers are per heap record in the model and global in the harness: arena 1's are shifted by 10
+Tag(op, a) == (IF "hid" \in DOMAIN op THEN [op EXCEPT !.hid = @ + 10 * a] ELSE op) @@ [a |-> a]
 Next ==
-  \/ \E x \in Ops(ha) : ha' = x[2] /\ hb' = hb /\ hist' = Append(hist, x[1] @@ [a |-> 0])
-  \/ \E x \in Ops(hb) : hb' = x[2] /\ ha' = ha /\ hist' = Append(hist, x[1] @@ [a |-> 1])
+  \/ \E x \in Ops(ha) : ha' = x[2] /\ hb' = hb /\ hist' = Append(hist, Tag(x[1], 0))
+  \/ /\ Menu = "dyn" => ha.phase = "Dropped"
+     /\ \E x \in Ops(hb) : hb' = x[2] /\ ha' = ha /\ hist' = Append(hist, Tag(x[1], 1))
 
 Spec == Init /\ [][Next]_vars
 Bounded == MaxOps = 0 \/ Len(hist) <= MaxOps
